@@ -290,8 +290,10 @@ def session_oracle(case):
                         raise
                     except Exception as e:
                         raise esc("clock-thread", e)
-                    # whatever remained is flushed by the recovery below
-                    recover(s, i)
+                    # the odd burst may have been forwarded (and may have consumed the peer's drop budget):
+                    # both transceivers go back to the known state
+                    recover(s, 0)
+                    recover(s, 1)
                 else:
                     if len(app_t._tx_queue) != before_q:
                         raise Violation("c14:session:rejected-data-queued", "queue length changed by a rejected datagram")
@@ -529,7 +531,7 @@ def atheris_campaigns(ctx, rec):
     if not os.path.exists(py):
         raise HarnessError("python3-vt (atheris) not found")
     budget = {"quick": {"parse": 40000, "capture": 15000, "ctrl": 2500, "data": 2500},
-              "thorough": {"parse": 3000000, "capture": 800000, "ctrl": 150000, "data": 150000}}[ctx.tier]
+              "thorough": {"parse": 2000000, "capture": 500000, "ctrl": 100000, "data": 100000}}[ctx.tier]
     base = os.path.join(ctx.build, "atheris")
     shutil.rmtree(base, ignore_errors=True)
     jobs = []
@@ -592,7 +594,7 @@ def libfuzzer_trxif(ctx, rec):
     from concurrent.futures import ThreadPoolExecutor
     from harness.core import Failure
     exe = trxif.build(ctx, fuzz=True)
-    runs = {"quick": 60000, "thorough": 2500000}[ctx.tier]
+    runs = {"quick": 60000, "thorough": 1000000}[ctx.tier]
     nsh = {"quick": 2, "thorough": 8}[ctx.tier]
     base = os.path.join(ctx.build, "libfuzzer")
     shutil.rmtree(base, ignore_errors=True)
